@@ -216,6 +216,13 @@ class ModelsOps:
                     if present:
                         r.__dict__.setdefault("hit_keys", []).append(l)
                 return BoolV(present if op is ast.In else not present)
+            if isinstance(r, GlobalMapV) and not isinstance(l, (StrV, OpaqueV)) and not getattr(r, "registry", False) \
+                    and not getattr(r, "convtable", False) and not getattr(r, "unit_values", False):
+                # a memo keyed by values: present only if stored on this path (Engine A follows the miss)
+                self.st.effects.append(("mapread", r, l, self.where(node)))
+                present = any(e[0] == "setitem" and isinstance(e[1], GlobalMapV) and e[1].name == r.name and
+                              self.keys_equal(e[2], l, node) for e in self.st.effects)
+                return BoolV(present if op is ast.In else not present)
             if isinstance(r, (ListV, GlobalMapV, OpaqueV, TupleV)) and not (isinstance(r, TupleV)):
                 res = bool(I.choose(2, f"in@{getattr(node, 'lineno', '?')}", ["absent", "present"]))
                 self.st.effects.append(("contains", r, l, res, self.where(node)))
@@ -278,6 +285,17 @@ class ModelsOps:
                 return self.term_cmp(dn, l, r, node)
             if isinstance(l, TupleV) and isinstance(r, TupleV) and dn in ("__eq__", "__ne__"):
                 return self.tuple_eq(l, r, node, dn == "__ne__")
+            if isinstance(l, (TupleV, ListV)) and type(l) is type(r) and l.items is not None and r.items is not None \
+                    and dn in ("__lt__", "__le__", "__gt__", "__ge__"):
+                return BoolV(self.seq_less(l.items, r.items, dn, node))
+            if isinstance(l, ListV) and isinstance(r, ListV) and l.items is not None and r.items is not None \
+                    and dn in ("__eq__", "__ne__"):
+                return self.tuple_eq(l, r, node, dn == "__ne__")
+            if isinstance(l, ObjV) and isinstance(r, ObjV) and l.ci is not None and l.ci is r.ci and \
+                    "dataclass" in getattr(l.ci, "decorators", ()) and dn in ("__eq__", "__ne__"):
+                same = all(self.truth(self.compare(ast.Eq, l.fields.get(f, NONE), r.fields.get(f, NONE), node), node)
+                           for f in l.ci.fields)
+                return BoolV(same == (dn == "__eq__"))
             if isinstance(l, (NoneV,)) and dn in ("__eq__", "__ne__"):
                 return BoolV((isinstance(r, NoneV)) == (dn == "__eq__"))
             if isinstance(l, (OpaqueV, HashV)) or isinstance(r, (OpaqueV,)):
@@ -289,6 +307,17 @@ class ModelsOps:
         if negate and not isinstance(res, NotImplV):
             return BoolV(not self.truth(res, node))
         return res
+
+    def seq_less(self, a, b, dn, node) -> bool:
+        """Lexicographic order of two concrete sequences."""
+        strict = {"__lt__": ast.Lt, "__le__": ast.Lt, "__gt__": ast.Gt, "__ge__": ast.Gt}[dn]
+        for x, y in zip(a, b):
+            if self.truth(self.compare(ast.Eq, x, y, node), node):
+                continue
+            return self.truth(self.compare(strict, x, y, node), node)
+        if len(a) == len(b):
+            return dn in ("__le__", "__ge__")
+        return (len(a) < len(b)) == (dn in ("__lt__", "__le__"))
 
     def tuple_eq(self, l: TupleV, r: TupleV, node, negate):
         if len(l.items) != len(r.items):
@@ -596,6 +625,14 @@ class ModelsOps:
             return StrV(None, "concat")
         if isinstance(l, TupleV) and isinstance(r, TupleV) and op is ast.Add:
             return TupleV(l.items + r.items)
+        if isinstance(l, ListV) and isinstance(r, ListV) and op is ast.Add and l.items is not None and r.items is not None:
+            return ListV(l.items + r.items)
+        if op is ast.BitOr and isinstance(l, (TypeV, ClsV, TupleV, NoneV)) and isinstance(r, (TypeV, ClsV, TupleV, NoneV)):
+            # X | Y: a union of types, usable wherever a tuple of types is
+            flat = []
+            for x in (l, r):
+                flat.extend(x.items if isinstance(x, TupleV) else [TypeV("NoneType") if isinstance(x, NoneV) else x])
+            return TupleV(flat)
         dn = _DUNDER.get(op)
         if dn is None:
             I.unsupported(node, "operator")
@@ -640,7 +677,16 @@ class ModelsOps:
         I = self.I
         if isinstance(fn, PyFuncV):
             a = ([fn.self_val] if fn.self_val is not None else []) + list(args)
-            return I.call_function(fn.fi, a, kwargs, node)
+            fi = fn.fi
+            impls = getattr(fi.module, "sd_impls", {}).get(fi.name) if fi.cls is None else None
+            if impls and a and isinstance(fi.node, ast.FunctionDef) and \
+                    any("singledispatch" in src_of(d) for d in fi.node.decorator_list):
+                for types, impl in impls:
+                    specs = [TypeV(t, self.prog.cls(t)) if self.prog.has_cls(t) else TypeV(t) for t in types]
+                    if any(self.isinstance_(a[0], sp, node) for sp in specs):
+                        fi = impl
+                        break
+            return I.call_function(fi, a, kwargs, node, closure=getattr(fn, "closure", None))
         if isinstance(fn, NativeV):
             return fn.fn(args, kwargs, node)
         if isinstance(fn, LambdaV):
@@ -767,7 +813,20 @@ class ModelsOps:
             o.kinds = {"date"}
             return o
         if name == "dict":
-            return DictV()
+            d = DictV()
+            if args:
+                if isinstance(args[0], DictV):
+                    d.items.extend(args[0].items)
+                else:
+                    seq = self.iterate(args[0], node)
+                    if seq is None:
+                        I.unsupported(node, "dict() of an opaque iterable")
+                    for x in seq:
+                        kv = self.unpack(x, 2, node)
+                        d.items.append((kv[0], kv[1]))
+            for k, v in kwargs.items():
+                d.items.append((StrV(k), v))
+            return d
         if t.ci is not None and ("NamedTuple" in t.ci.base_names or getattr(t, "nt_fields", None)):
             fields = getattr(t, "nt_fields", None) or t.ci.fields
             vals = list(args)
@@ -796,6 +855,23 @@ class ModelsOps:
         init = self.prog.lookup(ci, "__init__")
         if init is not None:
             self.I.call_function(init, [obj] + list(args), kwargs, node)
+        elif "dataclass" in getattr(ci, "decorators", ()):
+            # synthesised __init__ of a dataclass: fields in declaration order, defaults from the class body
+            vals = list(args)
+            kw = dict(kwargs)
+            if len(vals) > len(ci.fields):
+                self.I.raise_("TypeError", node)
+            for i, f in enumerate(ci.fields):
+                if i < len(vals):
+                    obj.fields[f] = vals[i]
+                elif f in kw:
+                    obj.fields[f] = kw.pop(f)
+                elif f in ci.attrs:
+                    obj.fields[f] = self.global_expr(ci.module, f"{ci.name}.{f}", ci.attrs[f], node)
+                else:
+                    self.I.raise_("TypeError", node)
+            if kw:
+                self.I.raise_("TypeError", node)
         return obj
 
     def type_of(self, v, node):
@@ -811,6 +887,8 @@ class ModelsOps:
             return TypeV("str")
         if isinstance(v, TupleV):
             return TypeV("tuple")
+        if isinstance(v, ObjV) and v.ci is not None:
+            return TypeV(v.ci.name, v.ci)
         if isinstance(v, OpaqueV):
             kinds = getattr(v, "kinds", None)
             if kinds and len(kinds) == 1 and next(iter(kinds)) in ("date", "int"):
@@ -901,6 +979,64 @@ class ModelsOps:
     # ---------------------------------------------------------- builtins
     def call_builtin(self, name, args, kwargs, node):
         I = self.I
+        if name == "hasattr" and len(args) == 2 and isinstance(args[1], StrV) and args[1].const is not None:
+            o, a = args[0], args[1].const
+            if isinstance(o, ObjV):
+                if a in o.fields:
+                    return BoolV(True)
+                if o.ci is not None:
+                    return BoolV(self.prog.lookup(o.ci, a) is not None or self.prog.lookup_attr(o.ci, a) is not None)
+                return BoolV(False)
+            try:
+                self.get_attr(o, a, node)
+                return BoolV(True)
+            except AbsRaise as ar:
+                if ar.exc.name == "AttributeError":
+                    return BoolV(False)
+                raise
+        if name == "operator.itemgetter" and len(args) == 1:
+            k0 = args[0]
+            return NativeV(lambda a2, k2, n: self.get_item(a2[0], k0, n), "itemgetter")
+        if name == "operator.attrgetter" and len(args) == 1 and isinstance(args[0], StrV) and args[0].const:
+            nm = args[0].const
+
+            def attrget(a2, k2, n, nm=nm):
+                v = a2[0]
+                for part in nm.split("."):
+                    v = self.get_attr(v, part, n)
+                return v
+            return NativeV(attrget, "attrgetter")
+        if name == "operator.methodcaller" and args and isinstance(args[0], StrV) and args[0].const:
+            nm, a0, k0 = args[0].const, list(args[1:]), dict(kwargs)
+            return NativeV(lambda a2, k2, n: self.call(self.get_attr(a2[0], nm, n), a0, k0, n), "methodcaller")
+        if name == "itertools.chain.from_iterable" and args:
+            outer = self.iterate(args[0], node)
+            if outer is not None:
+                out = []
+                for x in outer:
+                    sq = self.iterate(x, node)
+                    if sq is None:
+                        out = None
+                        break
+                    out.extend(sq)
+                if out is not None:
+                    lv = ListV(out)
+                    lv.lazy = True
+                    return lv
+        if name in ("collections.defaultdict", "collections.OrderedDict"):
+            d = DictV()
+            rest = list(args)
+            if name.endswith("defaultdict"):
+                d.default_factory = rest.pop(0) if rest else NONE
+            if rest:
+                src = rest[0]
+                if isinstance(src, DictV):
+                    d.items.extend(src.items)
+                else:
+                    for x in (self.iterate(src, node) or []):
+                        kv = self.unpack(x, 2, node)
+                        d.items.append((kv[0], kv[1]))
+            return d
         if name == "isinstance":
             return BoolV(self.isinstance_(args[0], args[1], node))
         if name == "cast":
@@ -922,6 +1058,12 @@ class ModelsOps:
                 return self.term_len(v, node)
             if isinstance(v, ObjV) and v.name == "kwargs":
                 return self.num_const(len(v.fields))
+            if isinstance(v, DictV):
+                distinct = []
+                for k, _ in v.items:
+                    if not any(self.keys_equal(k, k2, node) for k2 in distinct):
+                        distinct.append(k)
+                return self.num_const(len(distinct))
             if isinstance(v, ObjV) and v.ci is not None and self.prog.lookup(v.ci, "__len__") is not None:
                 return I.call_function(self.prog.lookup(v.ci, "__len__"), [v], {}, node)
             if isinstance(v, (OpaqueV, GlobalMapV, StrV)):
@@ -1001,7 +1143,22 @@ class ModelsOps:
                 for i, r in enumerate(rfs):
                     key = key + r * RF.atom(("slot", i))
                 return Num(self.ufn(name, key), "int" if all(a.kind in ("int", "bool") for a in args) else "exact")
-            return OpaqueV(name)
+            # general form: selection by comparisons (iterable argument, key=, default=)
+            items = list(args) if len(args) > 1 else (self.iterate(args[0], node) if args else None)
+            if items is None:
+                return OpaqueV(name)
+            keyf = kwargs.get("key")
+            if not items:
+                if "default" in kwargs:
+                    return kwargs["default"]
+                I.raise_("ValueError", node)
+            kf = (lambda x: self.call(keyf, [x], {}, node)) if keyf is not None and not isinstance(keyf, NoneV) else (lambda x: x)
+            best, kb = items[0], kf(items[0])
+            for x in items[1:]:
+                kx = kf(x)
+                if self.truth(self.compare(ast.Lt if name == "min" else ast.Gt, kx, kb, node), node):
+                    best, kb = x, kx
+            return best
         if name == "divmod":
             ratio = self.simplify_numden(args[0].rf / args[1].rf)
             q = Num(self.ufn("floordiv", ratio), "int")
@@ -1063,7 +1220,85 @@ class ModelsOps:
         if name == "enumerate" and args:
             sq = self.iterate(args[0], node)
             if sq is not None:
-                lv = ListV([TupleV([self.num_const(i), x]) for i, x in enumerate(sq)])
+                start = kwargs.get("start", args[1] if len(args) > 1 else None)
+                s0 = 0
+                if isinstance(start, Num) and self.st.norm(start.rf).is_const():
+                    s0 = int(self.st.norm(start.rf).const_value())
+                elif start is not None:
+                    I.unsupported(node, "enumerate with a symbolic start")
+                lv = ListV([TupleV([self.num_const(i), x]) for i, x in enumerate(sq, s0)])
+                lv.lazy = True
+                return lv
+        if name in ("itertools.product", "itertools.zip_longest", "itertools.islice", "itertools.starmap",
+                    "itertools.accumulate", "itertools.repeat", "itertools.takewhile", "itertools.dropwhile",
+                    "itertools.combinations", "itertools.permutations"):
+            import itertools as _it
+            short = name.split(".")[1]
+            def const_int(v):
+                if isinstance(v, NoneV):
+                    return None
+                if isinstance(v, Num) and self.st.norm(v.rf).is_const():
+                    return int(self.st.norm(v.rf).const_value())
+                I.unsupported(node, f"{name} with a symbolic count")
+            res = None
+            if short == "product":
+                seqs = [self.iterate(a, node) for a in args]
+                if all(sq is not None for sq in seqs):
+                    rep = const_int(kwargs["repeat"]) if "repeat" in kwargs else 1
+                    res = [TupleV(list(t)) for t in _it.product(*seqs, repeat=rep)]
+            elif short == "zip_longest":
+                seqs = [self.iterate(a, node) for a in args]
+                if all(sq is not None for sq in seqs):
+                    res = [TupleV(list(t)) for t in _it.zip_longest(*seqs, fillvalue=kwargs.get("fillvalue", NONE))]
+            elif short == "islice":
+                sq = self.iterate(args[0], node)
+                if sq is not None:
+                    res = list(_it.islice(sq, *[const_int(a) for a in args[1:]]))
+            elif short == "starmap":
+                sq = self.iterate(args[1], node)
+                if sq is not None:
+                    res = []
+                    for t in sq:
+                        it = self.iterate(t, node)
+                        if it is None:
+                            res = None
+                            break
+                        res.append(self.call(args[0], list(it), {}, node))
+            elif short == "accumulate":
+                sq = self.iterate(args[0], node)
+                if sq is not None:
+                    f = args[1] if len(args) > 1 else kwargs.get("func")
+                    res = []
+                    acc = kwargs.get("initial")
+                    if acc is not None and not isinstance(acc, NoneV):
+                        res.append(acc)
+                    else:
+                        acc = None
+                    for x in sq:
+                        if acc is None:
+                            acc = x
+                        elif f is None or isinstance(f, NoneV):
+                            acc = self.binop(ast.Add, acc, x, node)
+                        else:
+                            acc = self.call(f, [acc, x], {}, node)
+                        res.append(acc)
+            elif short == "repeat" and len(args) == 2:
+                res = [args[0]] * (const_int(args[1]) or 0)
+            elif short in ("combinations", "permutations"):
+                sq = self.iterate(args[0], node)
+                if sq is not None:
+                    r_ = const_int(args[1]) if len(args) > 1 else None
+                    res = [TupleV(list(t)) for t in getattr(_it, short)(sq, r_)]
+            elif short in ("takewhile", "dropwhile"):
+                sq = self.iterate(args[1], node)
+                if sq is not None:
+                    flags = [self.truth(self.call(args[0], [x], {}, node), node) for x in sq]
+                    n_ = 0
+                    while n_ < len(flags) and flags[n_]:
+                        n_ += 1
+                    res = sq[:n_] if short == "takewhile" else sq[n_:]
+            if res is not None:
+                lv = ListV(res)
                 lv.lazy = True
                 return lv
         if name == "itertools.chain":
@@ -1180,6 +1415,25 @@ class ModelsOps:
                 o = OpaqueV("date")
                 o.kinds = {"date"}
                 return o
+        if name == "getattr" and len(args) >= 2 and isinstance(args[1], StrV) and args[1].const is not None:
+            try:
+                return self.get_attr(args[0], args[1].const, node)
+            except AbsRaise as ar:
+                if ar.exc.name == "AttributeError" and len(args) > 2:
+                    return args[2]
+                raise
+        if name in ("set", "frozenset") and args:
+            sq = self.iterate(args[0], node)
+            if sq is not None:
+                out = []
+                for x in sq:
+                    if not any(self.keys_equal(x, y, node) for y in out):
+                        out.append(x)
+                return ListV(out)
+        if name == "callable" and args and isinstance(args[0], (PyFuncV, FuncV, NativeV, LambdaV, TypeV, ClsV)):
+            return BoolV(True)
+        if name == "callable" and args and isinstance(args[0], (Num, StrV, NoneV, TupleV, UnitV, QtyV)):
+            return BoolV(False)
         if name in ("callable", "id", "getattr", "issubclass", "set", "frozenset"):
             return OpaqueV(name)
         if "." in name and name.split(".")[0] not in ("operator", "math", "date", "itertools", "functools", "object"):
@@ -1187,6 +1441,9 @@ class ModelsOps:
             o = OpaqueV(f"call({name})")
             o.call_args = args
             return o
+        if name == "functools.partial" and args:
+            f0, a0, k0 = args[0], list(args[1:]), dict(kwargs)
+            return NativeV(lambda a2, k2, n: self.call(f0, a0 + list(a2), {**k0, **k2}, n), "functools.partial")
         if name.startswith("itertools.") or name.startswith("functools."):
             return ListV(None, tag=name)
         I.unsupported(node, f"builtin {name}")
